@@ -131,6 +131,9 @@ class Prog:
         need = ity['methods']
         if not need:
             return True
+        if t not in self.types:
+            have = getattr(self, 'synthetic_methods', {}).get(t, set())
+            return all(m in have for m in need)
         if self.kind(t) == 'interface':
             have = set(self.under(t)[1]['methods'])
         else:
